@@ -6,8 +6,10 @@ Theorems about the model `QModel/Verlet.lean` at the carrier `ℝ`.  Quantifiers
 function `F` (no smoothness needed for reversibility), every number of atoms `n`, every number of steps,
 all masses `> 0`, every `dt ≠ 0`, every initial state, both values of `Verlet.apply_constraints`.
 
-Partial: the clause "the total-energy error shrinks quadratically with the time step **for all smooth
-potentials**" is proved for harmonic wells only (`energy_error_quadratic_partial`); see the comment there.
+The clause "the total-energy error shrinks quadratically with the time step **for all smooth potentials**" is proved
+uniformly in time for harmonic wells here (`energy_error_quadratic_partial`) and, over a fixed time span and for every
+`C³` potential (separable or not) whose trajectory stays in a bounded region, in `QProps/C14g.lean`
+(`verlet_energy_error_quadratic_general`, `…_general_contDiff`).
 -/
 namespace Verlet
 open VecFn Finset MeasureTheory ProbabilityTheory
@@ -62,11 +64,11 @@ theorem verlet_shadow_harmonic (apply : Bool) (k : Col n ℝ) (ctr : Arr n ℝ) 
     `|H(q_n, p_n) − H(q_0, p_0)| ≤ dt² · W/(4 − W dt²) · H(q_0, p_0)`: the energy error is `O(dt²)`
     uniformly in the number of steps.
 
-    Full statement of the property (NOT proved): *for every smooth potential `V`, `F = −∇V`, there is a
-    constant `C(V, s, t)` with `|H(Φ_dt^n s) − H(s)| ≤ C dt²` for `n dt ≤ t`, `dt` in the stability range.*
-    Missing: a backward-error / local-truncation analysis of splitting methods for general `V` (Mathlib has
-    no Taylor-remainder machinery for flows of vector fields ready for this); supported numerically by the
-    order fit of the oracle (harmonic, quartic, Morse, EMT). -/
+    The statement for every smooth potential `V`, `F = −∇V` — a constant `C` with `|H(Φ_dt^n s) − H(s)| ≤ C·T·dt²`
+    for `n dt ≤ T` while the trajectory stays in a bounded region — is `verlet_energy_error_quadratic_general(_contDiff)`
+    in `QProps/C14g.lean` (local truncation analysis: the `dt` and `dt²` terms cancel identically, the `dt³` remainder is
+    bounded by Taylor estimates). What remains unproved is only that the trajectory stays bounded (derived here for the
+    harmonic and the cosine potential) and a bound uniform in time for general `V`. -/
 theorem energy_error_quadratic_partial (apply : Bool) (k : Col n ℝ) (ctr : Arr n ℝ) (m : Col n ℝ)
     (dt W : ℝ) (hm : ∀ i, 0 < m i) (hk : ∀ i, 0 ≤ k i) (hW : ∀ i, k i / m i ≤ W) (hdt : dt ≠ 0)
     (hstab : W * dt ^ 2 < 4) (steps : ℕ) (s : St n ℝ) :
